@@ -1826,6 +1826,17 @@ func (ctx Ctx) assignStmt(s *ast.AssignStmt) coq.Binding {
 		token.XOR_ASSIGN: coq.OpXor,
 	}
 	if op, ok := assignOps[s.Tok]; ok {
+		// x op= v is translated as x = x op v, which evaluates the operands
+		// of x twice; that is only faithful if they have no effects
+		ast.Inspect(lhs, func(n ast.Node) bool {
+			if call, ok := n.(*ast.CallExpr); ok {
+				tv := ctx.info.Types[call.Fun]
+				if !tv.IsType() && !tv.IsBuiltin() {
+					ctx.unsupported(call, "function call in the target of a %v assignment (it would be evaluated twice)", s.Tok)
+				}
+			}
+			return true
+		})
 		rhs = coq.BinaryExpr{
 			X:  ctx.expr(lhs),
 			Op: op,
